@@ -42,8 +42,9 @@ def cq_str(s_):
 
 
 PID = "C13"
-PARALLEL = 6
-IMPORTS_BASE = "From Verif Require Import C13.Model C13.Builders C13.Corr.\nFrom VerifGen Require Import C13Tables."
+PARALLEL = 12
+SHARD = 130            # cases per coqc file: the cost is parsing the case files, 16 of them run side by side
+IMPORTS_BASE = "From Verif Require Import C13.Model C13.Builders C13.Extra C13.Corr.\nFrom VerifGen Require Import C13Tables."
 IMPORTS = IMPORTS_BASE
 CASE_TYPE = "C13.Corr.case"
 RUNNER = "C13.Corr.run"
@@ -254,6 +255,7 @@ def load_table():
             r.parts.append((tag, k, mn_, mx, m))
         # attributes
         r.attrs = []
+        r.ids = []              # attributes of type xs:ID: their values are unique within a document
         for name, v in c.c_attributes.items():
             if not (isinstance(v, tuple) and len(v) == 3 and isinstance(v[0], str) and isinstance(v[2], bool)):
                 raise TableError("%s: c_attributes[%r] = %r" % (r.name, name, v))
@@ -262,6 +264,8 @@ def load_table():
                 if typ not in LEX:
                     raise TableError("%s: attribute %s has unknown type %r" % (r.name, name, typ))
                 lx = LEX[typ]
+                if typ == "ID":
+                    r.ids.append(_clark(name))
             elif inspect.isclass(typ) and issubclass(typ, SamlBase):
                 lx = _lex_of_value_type(typ.c_value_type, "%s.%s" % (r.name, name)) if typ.c_value_type else "LAny"
             else:
@@ -367,6 +371,11 @@ def _render_table():
     L.append("Definition live_table : table := [")
     L.append(";\n".join(rows))
     L.append("].")
+    L.append("")
+    L.append("(* per class (same order): the attributes declared with type xs:ID *)")
+    L.append("Definition live_ids : list (list qname) := [")
+    L.append(";\n".join("  (* %d *) [%s]" % (i, "; ".join(cq_q(n) for n in r.ids)) for i, r in enumerate(recs)))
+    L.append("].")
     return "\n".join(L) + "\n"
 
 
@@ -403,18 +412,50 @@ def shorten_b64(text):
     return t[:32] + t[-4:]
 
 
+XSI_TYPE_ATTR = "{%s}type" % XSI
+
+
+def resolve_qname(value, scope):
+    """The QName in an attribute VALUE (xsi:type) against the namespace bindings in scope, innermost last:
+    "{uri}local" when the prefix (or, for an unprefixed name, a default namespace) is bound; otherwise the
+    value as written - which then names no type."""
+    v = value.strip(" \t\r\n")
+    if ":" in v:
+        p, local = v.split(":", 1)
+    else:
+        p, local = "", v
+    for pfx, uri in reversed(scope):
+        if pfx == p:
+            return "{%s}%s" % (uri, local) if uri else value
+    return value
+
+
 def read_tree(xml):
-    """XML text -> nested [ (ns, local), [((ns, local), value)...], text, [kids] ] using xml.etree only."""
+    """XML text -> nested [ (ns, local), [((ns, local), value)...], text, [kids] ] using xml.etree only.
+    Namespace declarations are not part of the tree; the one place where the emitted documents depend on them
+    beyond element / attribute names - the QName value of xsi:type - is resolved here (resolve_qname)."""
+    import io
+
     if isinstance(xml, str):
         xml = xml.encode("utf-8")
-    root = ET.fromstring(xml)
+    scope, resolved, root = [], {}, None
+    for ev, item in ET.iterparse(io.BytesIO(xml), events=("start", "start-ns", "end-ns")):
+        if ev == "start-ns":
+            scope.append(item)
+        elif ev == "end-ns":
+            scope.pop()
+        else:
+            if root is None:
+                root = item
+            if XSI_TYPE_ATTR in item.attrib:
+                resolved[item] = resolve_qname(item.attrib[XSI_TYPE_ATTR], scope)
 
     def conv(el):
         if not isinstance(el.tag, str):
             raise LossyAbstraction("comment / processing instruction in output")
         if el.tail is not None and el.tail.strip(" \t\r\n") != "":
             raise LossyAbstraction("character data after a child element")
-        attrs = sorted((_clark(k), v) for k, v in el.attrib.items())
+        attrs = sorted((_clark(k), resolved[el] if k == XSI_TYPE_ATTR else v) for k, v in el.attrib.items())
         return [list(_clark(el.tag)), [[list(k), v] for k, v in attrs], shorten_b64(el.text or ""), [conv(k) for k in el]]
 
     return conv(root)
@@ -447,10 +488,36 @@ _entities = {}
 _validators = {}
 
 
+# What the library hands to the xmlsec binary during one builder call (statement to sign / encrypt): the
+# stand-in's losses are compensated from this record only (see compensate_standin).
+_TO_XMLSEC = []
+
+
+def _install_xmlsec_input_recorder():
+    import saml2.sigver as sv
+
+    if getattr(sv.make_temp, "_c13_recorder", False):
+        return
+    real = sv.make_temp
+
+    def make_temp(content, *a, **kw):
+        try:
+            txt = content.decode("utf-8", "replace") if isinstance(content, bytes) else str(content)
+            if XS_NS in txt:
+                _TO_XMLSEC.append(txt)
+        except Exception:
+            pass
+        return real(content, *a, **kw)
+
+    make_temp._c13_recorder = True
+    sv.make_temp = make_temp
+
+
 def setup():
     global _clock
     if _clock is None:
         env.install_standin()
+        _install_xmlsec_input_recorder()
         _clock = env.VClock(NOW).install()
     _clock.set(NOW)
 
@@ -596,18 +663,36 @@ def extended_validator():
     return _validators["ext"]
 
 
-STANDIN_XS_FIX = ' xmlns:xs="http://www.w3.org/2001/XMLSchema"'
+XS_NS = "http://www.w3.org/2001/XMLSchema"
+_XS_DECL = re.compile(r'xmlns:([A-Za-z_][A-Za-z0-9_.-]*)="http://www\.w3\.org/2001/XMLSchema"')
 
 
-def compensate_standin(doc):
+def compensate_standin(doc, handed_over=None):
     """The xmlsec1 stand-in re-serialises with ElementTree, which drops namespace declarations that are only
-    used inside attribute VALUES (xsi:type="xs:string"); the real xmlsec1 (libxml2) keeps them.  Put the
-    declaration the library wrote back on the root element before the document is validated."""
-    if 'xmlns:xs="http://www.w3.org/2001/XMLSchema"' in doc or not re.search(r'="xs:[A-Za-z]+"', doc):
+    used inside attribute VALUES (xsi:type="xs:string"); the real xmlsec1 (libxml2) keeps them.  A prefix bound
+    to the XML-Schema namespace is declared again on the root element if and only if (1) the library wrote
+    that declaration into a text it handed to the xmlsec binary during this call (recorded by the make_temp
+    hook), (2) the document uses the prefix in an attribute value and (3) no longer declares it.  A document
+    that never went through the stand-in, and a prefix the library did not declare, are left alone: a missing
+    declaration is then the library's and is judged by the oracle."""
+    if handed_over is None:
+        handed_over = _TO_XMLSEC
+    written = set()
+    for txt in handed_over:
+        written.update(_XS_DECL.findall(txt))
+    return _redeclare(doc, written)
+
+
+def _redeclare(doc, prefixes):
+    """declare the given XML-Schema prefixes on the root element where the document uses but does not declare them"""
+    here = set(_XS_DECL.findall(doc))
+    add = [p for p in sorted(set(prefixes) - here) if re.search(r'="%s:[A-Za-z]' % re.escape(p), doc)]
+    if not add:
         return doc, False
-    m = re.search(r"<([A-Za-z0-9_.-]+:)?[A-Za-z0-9_.-]+", doc[doc.find("?>") + 2 if doc.startswith("<?xml") else 0:])
-    off = (doc.find("?>") + 2 if doc.startswith("<?xml") else 0) + m.end()
-    return doc[:off] + STANDIN_XS_FIX + doc[off:], True
+    start = doc.find("?>") + 2 if doc.startswith("<?xml") else 0
+    m = re.search(r"<([A-Za-z0-9_.-]+:)?[A-Za-z0-9_.-]+", doc[start:])
+    off = start + m.end()
+    return doc[:off] + "".join(' xmlns:%s="%s"' % (p, XS_NS) for p in add) + doc[off:], True
 
 
 def oracle(doc):
@@ -680,7 +765,27 @@ def mk_subject(d):
             scd = saml.SubjectConfirmationData(recipient=x.get("recipient"), not_on_or_after=x.get("nooa"),
                                                in_response_to=x.get("irt"), address=x.get("address"))
         scs.append(saml.SubjectConfirmation(method=sc.get("method", saml.SCM_BEARER), subject_confirmation_data=scd))
-    return saml.Subject(name_id=mk_name_id(d.get("name_id")), subject_confirmation=scs or None)
+    return saml.Subject(name_id=mk_name_id(d.get("name_id")), base_id=mk_base_id(d.get("base_id")),
+                        encrypted_id=mk_encrypted_id(d.get("encrypted_id")), subject_confirmation=scs or None)
+
+
+def mk_base_id(q):
+    from saml2 import saml
+
+    return saml.BaseID(name_qualifier=q) if q else None
+
+
+def mk_encrypted_id(flag, cls=None):
+    """an EncryptedID (or NewEncryptedID) as a caller holds it: EncryptedData with a cipher value, optionally a key"""
+    from saml2 import saml, xmlenc
+
+    if not flag:
+        return None
+    ed = xmlenc.EncryptedData(type="http://www.w3.org/2001/04/xmlenc#Element",
+                              encryption_method=xmlenc.EncryptionMethod(algorithm="http://www.w3.org/2001/04/xmlenc#aes128-cbc")
+                              if flag == "method" else None,
+                              cipher_data=xmlenc.CipherData(cipher_value=xmlenc.CipherValue(text="AAECAwQFBgcICQ==")))
+    return (cls or saml.EncryptedID)(encrypted_data=ed)
 
 
 def mk_scoping(d):
@@ -786,14 +891,26 @@ def b_authn_request(case):
     return sp.create_authn_request(a["dest"], **args, **kw)[1]
 
 
+def dec_spec(v):
+    """value of one entry of the `attribute` dictionary as written in a case: a str, None or a list stand for
+    themselves; a Python TUPLE (value, type) is written {"t": [value, type]} (a tuple would come back from a
+    replay file as a list, and do_attributes treats the two differently)"""
+    if isinstance(v, dict):
+        return tuple(v["t"])
+    return v
+
+
+def dec_attribute(l):
+    """[[key, spec], ...] -> the dictionary handed to create_attribute_query (key: str, or list = tuple)"""
+    if l is None:
+        return None
+    return {(tuple(k) if isinstance(k, list) else k): dec_spec(v) for k, v in l}
+
+
 def b_attribute_query(case):
     a = case["a"]
     sp = get_sp(case["cfg"])
-    attribute = None
-    if a.get("attribute") is not None:
-        attribute = {}
-        for k, v in a["attribute"]:
-            attribute[tuple(k) if isinstance(k, list) else k] = v
+    attribute = dec_attribute(a.get("attribute"))
     kw = dict(a.get("kw", {}))
     nid = a.get("name_id")
     if isinstance(nid, dict):
@@ -848,9 +965,10 @@ def b_name_id_mapping_request(case):
     sp = get_sp(case["cfg"])
     from saml2 import saml
 
-    base_id = saml.BaseID(name_qualifier=a["base_id"]) if a.get("base_id") else None
     return sp.create_name_id_mapping_request(mk_name_id_policy(a["policy"]), name_id=mk_name_id(a.get("name_id")),
-                                             base_id=base_id, destination=a.get("dest"), message_id=a.get("message_id", 0),
+                                             base_id=mk_base_id(a.get("base_id")),
+                                             encrypted_id=mk_encrypted_id(a.get("encrypted_id")),
+                                             destination=a.get("dest"), message_id=a.get("message_id", 0),
                                              consent=a.get("consent"), extensions=mk_extensions(a.get("extensions")),
                                              sign=a.get("sign"))[1]
 
@@ -917,6 +1035,34 @@ def b_logout_response(case):
                                       issuer=_issuer_obj(a.get("issuer")))
 
 
+BUILTIN_EXCEPTIONS = ["Exception", "ValueError", "KeyError", "OSError", "RuntimeError", "TypeError", "AttributeError"]
+
+
+def exception_table():
+    """names of the exception classes s_utils.EXCEPTION2STATUS knows, read from the live table"""
+    import saml2.s_utils as su
+
+    return sorted(k.__name__ for k in su.EXCEPTION2STATUS)
+
+
+def exc_class(name):
+    """"X": the class X of the live table / of saml2.s_utils / a built-in; "sub:X": a subclass of X defined by the
+    caller (an application's own exception)"""
+    import builtins
+
+    import saml2.s_utils as su
+
+    if name.startswith("sub:"):
+        base = exc_class(name[4:])
+        return type("Application" + base.__name__, (base,), {})
+    for k in su.EXCEPTION2STATUS:
+        if k.__name__ == name:
+            return k
+    if hasattr(su, name):
+        return getattr(su, name)
+    return getattr(builtins, name)
+
+
 def b_error_response(case):
     a = case["a"]
     ent = _entity(case)
@@ -927,10 +1073,7 @@ def b_error_response(case):
         import saml2.s_utils as su
         from saml2 import saml
 
-        exc = {"ValueError": ValueError, "Exception": Exception, "MissingValue": su.MissingValue,
-               "UnsupportedBinding": su.UnsupportedBinding, "UnknownPrincipal": su.UnknownPrincipal,
-               "UnknownSystemEntity": su.UnknownSystemEntity, "UnknownPrincipal2": su.UnknownPrincipal}
-        cls = exc[info["exc"]]
+        cls = exc_class(info["exc"])
         if info.get("ctx") is not None:
             inf = cls(info["ctx"])
         elif "message" in info and info["message"] is not None:
@@ -977,7 +1120,9 @@ def b_manage_name_id_request(case):
     return ent.create_manage_name_id_request(
         a["dest"], message_id=a.get("message_id", 0), consent=a.get("consent"),
         extensions=mk_extensions(a.get("extensions")), sign=a.get("sign"), name_id=mk_name_id(a.get("name_id")),
+        encrypted_id=mk_encrypted_id(a.get("encrypted_id")),
         new_id=samlp.NewID(text=a["new_id"]) if a.get("new_id") is not None else None,
+        new_encrypted_id=mk_encrypted_id(a.get("new_encrypted_id"), samlp.NewEncryptedID),
         terminate=samlp.Terminate() if a.get("terminate") else None)[1]
 
 
@@ -1083,10 +1228,14 @@ def _idp_with_session(case):
     """An IdP that has issued one assertion (so that the session database knows it)."""
     a = case["a"]
     idp = get_idp(case["cfg"], fresh=True)
-    resp = idp.create_authn_response({"givenName": ["Anna"]}, "id-prev", world.SP_ACS_POST, world.SP_ID,
-                                     name_id=mk_name_id({"text": "subj-1", "format": PERSISTENT}),
-                                     authn={"class_ref": AC_PASSWORD, "authn_auth": world.IDP_ID},
-                                     sign_assertion=a.get("sign_assertion"))
+    resp = None
+    # "sessions": one authn dictionary per earlier sign-on of the same subject at this IdP (default: one)
+    for i, authn in enumerate(a["sessions"] if a.get("sessions") is not None
+                              else [{"class_ref": AC_PASSWORD, "authn_auth": world.IDP_ID}]):
+        resp = idp.create_authn_response({"givenName": ["Anna"]}, "id-prev" if i == 0 else "id-prev%d" % i,
+                                         world.SP_ACS_POST, world.SP_ID,
+                                         name_id=mk_name_id({"text": "subj-1", "format": PERSISTENT}),
+                                         authn=_authn(authn), sign_assertion=a.get("sign_assertion"))
     return idp, resp
 
 
@@ -1188,6 +1337,7 @@ EXC_ENUM = {"TypeError": "type", "ValueError": "value", "AttributeError": "attri
 
 def produce(case):
     """Run the real builder -> (document text | None, object-or-text for valid_instance, exception kind | None)."""
+    del _TO_XMLSEC[:]
     try:
         out = BUILDERS[case["b"]](case)
         if isinstance(out, bytes):
@@ -1308,11 +1458,23 @@ def mutate(doc, seed):
         n.insert(x[0], ET.Element(x[1]))
     elif kind == "text":
         n.text = (n.text or "") + x
-    return ET.tostring(root, encoding="unicode"), kind
+    # ElementTree drops the xs / xsd declarations (used in attribute values only): what the document declared
+    # before the injected defect is declared again, so that the defect is the only difference
+    return _redeclare(ET.tostring(root, encoding="unicode"), _XS_DECL.findall(doc))[0], kind
 
 
 # =============================================================================== observation
 def observe(case):
+    """the observation proper (_observe) plus, computed here because observe() runs in the worker pool and coq_case()
+    does not, the Coq terms of the abstract builder arguments (they need entities and instance serialisations)"""
+    obs = _observe(case)
+    if not case["b"].startswith("lex_"):
+        xb = coq_xinfo(case, obs)
+        obs["cb"] = ["BOther" if xb != "XBNone" else coq_binfo(case, obs), xb]
+    return obs
+
+
+def _observe(case):
     setup()
     if case["b"] == "lex_instant":
         from saml2 import time_util
@@ -1344,7 +1506,7 @@ def observe(case):
         if out is not None:
             v = instance_valid(out)
             obs["vi"] = {True: "true", False: "false", None: "crash"}[v] if not (isinstance(out, str) and v is None) else "na"
-        obs["tree"] = read_tree(doc)
+        obs["tree"] = read_tree(vdoc)
         obs["size"] = tree_size(obs["tree"])
     except LossyAbstraction as e:
         obs["exc"] = "lossy:" + str(e)
@@ -1372,6 +1534,19 @@ def expected_exc(case):
     a, b = case["a"], case["b"]
     if b == "logout_request" and not a.get("subject_id") and a.get("name_id") is None:
         return "saml"                       # SAMLError("Missing subject identification")
+    if b == "name_id_mapping_request" and not (a.get("name_id") or a.get("base_id") or a.get("encrypted_id")):
+        return "value"                      # "At least one of name_id, base_id or encrypted_id must be present."
+    if b == "manage_name_id_request" and (not (a.get("name_id") or a.get("encrypted_id"))
+                                          or not (a.get("new_id") or a.get("new_encrypted_id") or a.get("terminate"))):
+        return "attribute"                  # "One of ... has to be provided"
+    if b == "attribute_query":
+        if a.get("name_id") is None and "subject_id" not in a.get("kw", {}):
+            return "attribute"              # "Missing required parameter"
+        for k, v in a.get("attribute") or []:
+            if isinstance(v, dict) and v["t"][0] is None and v["t"][1]:
+                return "type"               # do_ava: a type for no value (iterates over None)
+            if isinstance(k, list) and len(k) == 1:
+                return "value"              # do_attribute unpacks a tuple key into 3, then 2 names: a 1-tuple fails
     if b == "artifact_response" and (a.get("sign") or (a.get("sign") is None and _should_sign(case))):
         return "attribute"                  # the signed text has no .extension_elements
     if b == "ecp_authn_request" and a.get("sign"):
@@ -1389,16 +1564,22 @@ def expected_exc(case):
 
 def coq_case(case, obs):
     if case["b"] == "lex_instant":
-        return "C13.Corr.mk (XInstant %d%%N %s) BOther None false false VNA 0" % (case["a"]["ts"], _cq_str(obs["value"]))
+        return "C13.Corr.mk (XInstant %d%%N %s) BOther XBNone None false false VNA 0" % (case["a"]["ts"], _cq_str(obs["value"]))
     if case["b"] == "lex_sid":
-        return "C13.Corr.mk (XSid %s) BOther None false false VNA 0" % _cq_str(obs["value"])
+        return "C13.Corr.mk (XSid %s) BOther XBNone None false false VNA 0" % _cq_str(obs["value"])
     if obs["tree"] is None and case.get("mut") is None and obs["exc"] != expected_exc(case):
         # an exception the unchanged tree does not raise: flagged through a case that cannot agree
-        return "C13.Corr.mk (XSid \"\") BOther None false false VNA 0"
+        return "C13.Corr.mk (XSid \"\") BOther XBNone None false false VNA 0"
     t = "None" if obs["tree"] is None else "(Some %s)" % cq_tree(obs["tree"])
     vi = {"true": "VTrue", "false": "VFalse", "crash": "VCrash", "na": "VNA"}[obs["vi"]]
     mut = 0 if case.get("mut") is None else (2 if obs["mut_kind"] in NO_CLAIM else 1)
-    return "C13.Corr.mk XNone %s %s %s %s %s %d" % (coq_binfo(case, obs), t, cq(bool(obs["xsd"])), cq(bool(obs["xsd_ext"])), vi, mut)
+    if obs.get("cb"):
+        b, xb = obs["cb"]
+    else:
+        xb = coq_xinfo(case, obs)
+        b = "BOther" if xb != "XBNone" else coq_binfo(case, obs)
+    return "C13.Corr.mk XNone %s %s %s %s %s %s %d" % (b, xb, t,
+                                                       cq(bool(obs["xsd"])), cq(bool(obs["xsd_ext"])), vi, mut)
 
 
 def explain_term(term):
@@ -1425,6 +1606,8 @@ NAMEIDS = [{"text": "abc", "format": PERSISTENT}, {"text": "a@b.example", "forma
            {"text": TEXTS[2]}, {"text": "u1", "format": TRANSIENT, "spid": "sp-prov"}]
 IDENTITIES = [[["givenName", ["Anna"]], ["mail", ["a@x.org"]]], [["givenName", ["Anna", "Bea"]]],
               [["sn", [TEXTS[2]]], ["displayName", [TEXTS[3]]]], [["mail", []]], []]
+TYPED_IDENTITIES = [[["age", [43]], ["member", [True]]], [["member", [False, True]], ["height", [1.5]]],
+                    [["givenName", ["Anna", 7]], ["mail", "a@x.org"]], [["count", 3], ["flag", True], ["sn", None]]]
 AUTHNS = [{"class_ref": AC_PASSWORD, "authn_auth": "https://idp.example.org"}, {"class_ref": AC_PPT},
           {"class_ref": AC_PPT, "authn_auth": "https://aa.example.org", "authn_instant": 1699999000}, None,
           {"class_ref": AC_PASSWORD, "subject_locality": "192.0.2.7"}]
@@ -1646,6 +1829,67 @@ def gen_authn_request(ctx, rng):
     return out
 
 
+_SC = {"method": "urn:oasis:names:tc:SAML:2.0:cm:bearer", "data": {"recipient": "https://sp.example.org/acs/post", "irt": "id-1"}}
+# (saml:BaseID is abstract in the schema - an instance needs an xsi:type from a schema of the caller's own: the plain
+# saml.BaseID instance is not a valid argument wherever it would be written out)
+SUBJECTS = [{"name_id": NAMEIDS[1]}, {"encrypted_id": True}, {"confirmations": [_SC]},
+            {"name_id": NAMEIDS[0], "confirmations": [_SC, {"method": "urn:oasis:names:tc:SAML:2.0:cm:sender-vouches"}]},
+            {"encrypted_id": "method", "confirmations": [_SC]}]
+
+# values that are lexically of the type they are declared with (an ill-typed value is the caller's mistake)
+TYPED_VALUES = [("xs:string", "Derek"), ("xsd:string", "Derek"), ("xs:integer", "43"), ("xsd:integer", "-7"),
+                ("xs:boolean", "true"), ("xsd:boolean", "0"), ("xs:base64Binary", "AAECAwQ="), ("xsd:base64Binary", "AAEC"),
+                ("xs:anyType", "anything"), ("xs:dateTime", "2023-11-14T22:13:20Z"), ("xsd:date", "2023-11-14"),
+                ("xs:anyURI", "urn:x:y"), ("xs:float", "1.5"), ("xs:long", "9000000000"), ("", "untyped")]
+AQ_KEYS = ["mail", ["urn:oid:2.5.4.42", NF_URI, "givenName"], ["urn:oid:2.5.4.4", NF_URI], ["sn", ""], ["urn:oid:2.5.4.3"],
+           ["a", "b", ""]]
+
+
+def gen_attribute_specs(ctx, rng):
+    """The `attribute` argument of create_attribute_query as s_utils.do_attributes reads it: for every form of
+    key (str, 1-, 2-, 3-tuple) and every form of value - None, str of 0..3 characters and longer, list of 0..3
+    values, (value, type) tuples with the value a str / a list / None and the type spelt with either customary
+    prefix of the XML-Schema namespace or empty - plus dictionaries that mix them."""
+    out = []
+
+    def q(attribute, tag, **extra):
+        a = {"dest": URLS[0], "name_id": "abc", "attribute": attribute}
+        a.update(extra)
+        out.append(case("attribute_query", a, {}, tag))
+
+    plain = [None, "", "a", "ab", "abc", "å", "åä", "Anna Karlsson", [], ["staff"], ["staff", "member"],
+             ["staff", "member", "employee"], ["", ""], ["a&b", "<c>"]]
+    for v in plain:
+        q([["eduPersonAffiliation", v]], "aq-value-shape")
+    for k in AQ_KEYS:
+        for v in (["x"], {"t": ["x", "xsd:string"]}):
+            q([[k, v]], "aq-key-shape")
+    for typ, val in TYPED_VALUES:
+        for shape in ("str", "list1", "list2"):
+            if shape != "str" and not ctx.thorough and rng.random() < .5:
+                continue
+            v = val if shape == "str" else [val] if shape == "list1" else [val, val]
+            q([["urn:example:attr", {"t": [v, typ]}]], "aq-typed")
+    for v in ({"t": [None, ""]}, {"t": [None, "xs:string"]}, {"t": [[], "xs:string"]}, {"t": ["", "xs:string"]},
+              {"t": [["a", "b", "c"], "xsd:string"]}):
+        q([["urn:example:attr", v]], "aq-typed")
+    # several attributes in one query: both prefixes side by side, typed next to untyped; signed as well (the
+    # declarations have to survive the signer)
+    for sign in [None, True]:
+        q([["givenName", {"t": ["Derek", "xs:string"]}], ["affiliation", {"t": [["staff"], "xsd:string"]}], ["sn", ["J"]],
+           ["shoeSize", {"t": ["43", "xsd:integer"]}]], "aq-typed", sign=sign)
+        q([["a1", {"t": ["true", "xsd:boolean"]}]], "aq-typed", sign=sign)
+    for _ in range(40 if ctx.thorough else 8):
+        l = []
+        for i in range(rng.randint(1, 4)):
+            typ, val = _pick(rng, TYPED_VALUES)
+            v = _pick(rng, [val, [val], [val, val, val]])
+            l.append([_pick(rng, AQ_KEYS[:4]) if i == 0 else "attr%d" % i,
+                      _pick(rng, [{"t": [v, typ]}, _pick(rng, plain[4:])])])
+        q(l, "aq-typed", sign=_maybe(rng, .2, True), consent=_maybe(rng, .2, True))
+    return out
+
+
 def gen_requests(ctx, rng):
     out = []
     n = 4 if ctx.thorough else 1
@@ -1669,6 +1913,17 @@ def gen_requests(ctx, rng):
                                             "message_id": _pick(rng, [0] + IDS), "consent": _maybe(rng, .3, True),
                                             "extensions": _maybe(rng, .3, ["hint-a"]), "sign": _maybe(rng, .3, True),
                                             "sign_prepare": _maybe(rng, .2, True)}, {}, "attribute_query"))
+    out += gen_attribute_specs(ctx, rng)
+    # who the query is about: NameID instance / str (+ qualifier keywords) / subject_id keyword / nothing at all
+    for nid in [NAMEIDS[0], "abc", None]:
+        for sid_ in [None, "subj"]:
+            kw = {"subject_id": sid_} if sid_ else {}
+            if rng.random() < .5:
+                kw["format"] = PERSISTENT
+            a = {"dest": URLS[0], "attribute": [["mail", None]], "kw": kw}
+            if nid is not None:
+                a["name_id"] = nid
+            out.append(case("attribute_query", a, {}, "aq-subject"))
     # authz decision queries
     for acts in [[["read", "urn:oasis:names:tc:SAML:1.0:action:rwedc"]], [["read", "urn:x"], ["write", "urn:x"]]]:
         for ev in [None, ["id-a1"], ["id-a1", "id-a2"]]:
@@ -1689,6 +1944,43 @@ def gen_requests(ctx, rng):
                 if si != "absent":
                     a["session_index"] = si
                 out.append(case("authn_query", a, {}, "authn_query"))
+    # the Subject a caller hands in: every form the schema's choice allows (one identifier of each kind, with and
+    # without confirmations, confirmations only)
+    for sj in SUBJECTS:
+        out.append(case("authn_query", {"dest": URLS[0], "subject": sj, "rac": RACS[0]}, {}, "subject-forms"))
+        out.append(case("authz_decision_query", {"dest": URLS[0], "actions": [["read", "urn:x"]], "resource": URLS[0],
+                                                 "subject": sj}, {}, "subject-forms"))
+    # "exactly one of": every combination of the alternative identifier arguments present / absent
+    for nid in [None, NAMEIDS[0]]:
+        for bid in [None, "urn:q"]:
+            for eid in [None, True, "method"]:
+                for sign in [None, True]:
+                    if sign and eid == "method":
+                        continue
+                    if bid and not nid:
+                        continue        # the BaseID itself would be written: no valid instance of it exists (see SUBJECTS)
+                    a = {"dest": URLS[0], "policy": {"format": PERSISTENT}, "sign": sign}
+                    if nid:
+                        a["name_id"] = nid
+                    if bid:
+                        a["base_id"] = bid
+                    if eid:
+                        a["encrypted_id"] = eid
+                    out.append(case("name_id_mapping_request", a, {}, "one-of:name_id_mapping_request"))
+    for who in ["sp", "idp"]:
+        for nid in [None, NAMEIDS[1]]:
+            for eid in [None, True]:
+                for new in [None, "n-2"]:
+                    for newenc in [None, True]:
+                        for term in [None, True]:
+                            if who == "idp" and rng.random() < .5:
+                                continue
+                            a = {"who": who, "dest": URLS[0]}
+                            for k, v in (("name_id", nid), ("encrypted_id", eid), ("new_id", new), ("new_encrypted_id", newenc),
+                                         ("terminate", term)):
+                                if v is not None:
+                                    a[k] = v
+                            out.append(case("manage_name_id_request", a, {}, "one-of:manage_name_id_request"))
     # name id mapping request
     for pol in [{"format": PERSISTENT}, {"format": EMAIL, "allow_create": "true", "spnq": "urn:q"}]:
         for which in ["name_id"]:
@@ -1754,13 +2046,32 @@ def gen_requests(ctx, rng):
                  {"kind": "exc", "exc": "UnsupportedBinding", "message": "b"},
                  {"kind": "exc", "exc": "Exception", "ctx": {"status_message_text": "ctx text", "status_code_status_code_value": "urn:ctx"}},
                  {"kind": "exc", "exc": "Exception", "ctx": {"status_code_status_code_value": "urn:ctx"}}]
-        for info in infos:
-            for irt in [None, "id-1"]:
-                for dest in [None, URLS[0]]:
-                    for sign in [None, True]:
-                        out.append(case("error_response", {"who": who, "in_response_to": irt, "dest": dest, "info": info, "sign": sign,
-                                                           "issuer": _maybe(rng, .3, "https://other.example.org/issuer")},
-                                        {}, "error_response"))
+        # in_response_to x destination x sign do not interact with what the status is made from: their full product
+        # for one tuple and one exception, two drawn combinations for every other info
+        for j, info in enumerate(infos):
+            combos = [(irt, dest, sign) for irt in [None, "id-1"] for dest in [None, URLS[0]] for sign in [None, True]]
+            if j not in (0, 3):
+                combos = [(_pick(rng, [None, "id-1"]), _pick(rng, [None, URLS[0]]), sign) for sign in [None, True]]
+            for irt, dest, sign in combos:
+                out.append(case("error_response", {"who": who, "in_response_to": irt, "dest": dest, "info": info, "sign": sign,
+                                                   "issuer": _maybe(rng, .3, "https://other.example.org/issuer")},
+                                {}, "error_response"))
+    # the status of an exception INSTANCE: every class the live table lists, classes it does not list (built-ins,
+    # other saml2 exceptions), application subclasses of listed classes; with a message, without arguments, with a
+    # context dictionary (with and without a status code of its own)
+    names = exception_table() + [n for n in BUILTIN_EXCEPTIONS if n not in exception_table()] \
+        + ["UnknownSystemEntity", "sub:UnknownPrincipal", "sub:MissingValue", "sub:Exception", "sub:ValueError"]
+    for j, name in enumerate(names):
+        forms = [{"message": "it failed"}, {}]
+        if j % 3 == 0:
+            forms.append({"ctx": {"status_message_text": "ctx text", "status_code_status_code_value": "urn:ctx"}})
+        if j % 3 == 1:
+            forms.append({"ctx": {"status_message_text": "only text"}})
+        for f in forms:
+            info = {"kind": "exc", "exc": name}
+            info.update(f)
+            out.append(case("error_response", {"who": ["sp", "idp"][j % 2], "in_response_to": "id-1", "dest": URLS[0], "info": info},
+                            {}, "error_response-exception"))
     for who in ["sp", "idp"]:
         for nid in NAMEIDS[:2]:
             for new in [("new_id", "n-1"), ("terminate", True)]:
@@ -1817,6 +2128,23 @@ def gen_responses(ctx, rng):
                     if rng.random() < .15:
                         cfg["idp_sign_assertion"] = True
                     out.append(case("authn_response", a, cfg, "authn_response" + ("-enc" if enc else "")))
+    # sign_response x sign_assertion x every encryption mode, completely (the sampled product above varies the rest):
+    # each ds:Signature template needs an Id of its own, and xs:ID uniqueness is judged over the whole document
+    for sr, sa in [(None, None), (True, None), (None, True), (True, True), (False, True), (True, False)]:
+        for enc in [None, "enc", "pefim", "advice"]:
+            a = {"identity": IDENTITIES[0], "in_response_to": "id-1", "dest": world.SP_ACS_POST, "userid": "user-1", "authn": AUTHNS[0]}
+            if sr is not None:
+                a["sign_response"] = sr
+            if sa is not None:
+                a["sign_assertion"] = sa
+            if enc == "enc":
+                a["encrypt_assertion"] = True
+            elif enc == "pefim":
+                a["pefim"] = True
+                a["encrypt_cert_advice"] = "sp"
+            elif enc == "advice":
+                a["encrypted_advice_attributes"] = True
+            out.append(case("authn_response", a, {}, "authn_response-sign-enc-product"))
     # PEFIM towards a service provider for which no encryption certificate is known: the advice stays in the clear
     for sa in [None, True]:
         for sr in [None, True]:
@@ -1840,6 +2168,21 @@ def gen_responses(ctx, rng):
     for sa in [None, True]:
         for sign in [None, True]:
             out.append(case("assertion_id_request_response", {"sign_assertion": sa, "sign": sign}, aa_cfg, "assertion_id_request_response"))
+    # an authn query about a subject that signed on several times (0..3 sessions, same or different context
+    # classes, with and without a context / session filter): one assertion per matching statement
+    ses = [{"class_ref": AC_PASSWORD, "authn_auth": world.IDP_ID}, {"class_ref": AC_PPT}, {"class_ref": AC_PASSWORD}]
+    for n in [0, 1, 2, 3]:
+        for rac in [None, RACS[0]]:
+            for sign in [None, True]:
+                if sign and n != 2:
+                    continue
+                out.append(case("authn_query_response", {"sessions": ses[:n], "in_response_to": "id-q1", "sign": sign, "rac": rac},
+                                aa_cfg, "authn_query_response-sessions"))
+    # identity values that are not str: the xsi:type and the text are derived from the Python type
+    for ident in TYPED_IDENTITIES:
+        for b in ["authn_response", "attribute_response"]:
+            out.append(case(b, {"identity": ident, "in_response_to": "id-1", "dest": world.SP_ACS_POST, "userid": "u1",
+                                "authn": AUTHNS[1]}, {}, b + "-typed-values"))
     for known in [True, False]:
         for sign in [None, True]:
             for st in STATUSES[:3]:
@@ -2077,12 +2420,12 @@ def histogram(cases, observed):
     return h
 
 
-FINDING_CLASSES = {1: "C13-F1", 2: "C13-F2", 3: "C13-F3", 4: "C13-F4", 5: "C13-F5", 6: "C13-F6", 7: "C13-F7"}
+FINDING_CLASSES = {1: "C13-F1", 2: "C13-F2", 3: "C13-F3", 4: "C13-F4", 5: "C13-F5", 6: "C13-F6", 7: "C13-F7", 8: "C13-F8", 9: "C13-F9"}
 UNDER_THEOREM = {
     "create_authn_request": "c13_authn_request_valid (all option handling: ACS url/index/binding, hide, ProviderName, "
                             "ForceAuthn, IsPassive, NameIDPolicy/AllowCreate/vorg, RequestedAuthnContext, Scoping, Conditions, "
                             "Subject, Extensions with eIDAS SPType / RequestedAttributes, consent, destination, signing)",
-    "create_logout_request": "c13_logout_request_valid",
+    "create_logout_request": "c13_logout_request_valid, c13_logout_request_one_identifier",
     "create_logout_response": "c13_logout_response_valid (_status_response)",
     "create_manage_name_id_response": "c13_manage_name_id_response_valid (_status_response)",
     "create_artifact_response": "c13_artifact_response_valid (_status_response + the stored message)",
@@ -2093,12 +2436,25 @@ UNDER_THEOREM = {
     "metadata.entity_descriptor (EntityDescriptor shell + do_organization_info; role descriptors, contacts and "
     "Extensions content as serialised)": "c13_entity_descriptor_valid",
     "create_name_id_mapping_response": "c13_name_id_mapping_response_valid (after fix 04928d2a; the pinned snapshot: _v0_refuted / _v0_never_valid)",
+    "create_name_id_mapping_request (name_id > base_id > encrypted_id precedence)":
+        "c13_name_id_mapping_request_valid, c13_name_id_mapping_request_one_identifier (the xs:choice: exactly one identifier "
+        "for every combination of the three arguments)",
+    "create_manage_name_id_request (name_id / encrypted_id; new_id / new_encrypted_id / terminate)":
+        "c13_manage_name_id_request_valid, c13_manage_name_id_request_one_of_each",
+    "s_utils.do_attributes / do_attribute / do_ava + AttributeValue.set_text / set_type (the `attribute` dictionary of "
+    "create_attribute_query: key forms, value forms, (value, type) tuples, declaration of the xs / xsd prefix)":
+        "c13_attribute_query_s_valid, c13_do_attributes_typed, c13_do_attributes_plain_untyped (after fix bf274fc5; the pinned "
+        "snapshot: c13_do_attributes_misread_v0_refuted)",
+    "create_authn_query_response (identifiers of its assertions)":
+        "c13_authn_query_response_own_ids_unique, c13_authn_query_response_sample_ok (after fix 8ef9e86e; the pinned snapshot: "
+        "c13_authn_query_response_ids_v0_never_unique, _v0_refuted)",
+    "xs:ID uniqueness as evaluated on every emitted document": "c13_ids_unique_reflect",
     "s_utils.sid / time_util.instant": "c13_sid_lexical, c13_instant_lexical",
     "SamlBase._to_element_tree (every class, every object)": "c13_serialiser + c13_table_consistent",
 }
 CORRESPONDENCE_ONLY = [
     "create_authz_decision_query", "create_authz_decision_query_using_assertion", "create_authn_query",
-    "create_name_id_mapping_request", "create_ecp_authn_request", "create_manage_name_id_request",
+    "create_ecp_authn_request",
     "create_authn_response / create_authn_request_response (the Assertion: C09's assembly; here validated, not modelled)",
     "create_ecp_authn_request_response", "create_attribute_response (assertion part)", "create_assertion_id_request_response",
     "create_authn_query_response (assertion part)",
@@ -2114,7 +2470,17 @@ RULE = ("quick: complete AllowCreate lattice nameid_format(4) x configured forma
         "configuration(2); extensions(3) x sp_type(4) x eIDAS requested attributes argument(4) x configuration(2); sign(3) x "
         "authn_requests_signed(2) x sign_prepare(2); every other public create_* of Saml2Client / Server / Entity over its "
         "option lattice (name ids, session indexes, bindings, status factories, issuers, signing, encryption, PEFIM, "
-        "error infos incl. exceptions), metadata generation over roles x ui_info / organisation / contacts / entity attributes "
+        "error infos incl. exceptions); the `attribute` dictionary of create_attribute_query over key forms (str, 1-, 2-, "
+        "3-tuple) x value forms (None, str of 0..3 characters and longer, list of 0..3 values) and (value, type) tuples with 15 "
+        "type spellings ('xs:' / 'xsd:' prefix, empty) x value as str / list of 1 / list of 2, mixed dictionaries, signed and "
+        "unsigned; every present/absent combination of the alternative arguments of create_name_id_mapping_request (name_id, "
+        "base_id, encrypted_id) and create_manage_name_id_request (name_id, encrypted_id, new_id, new_encrypted_id, terminate), "
+        "subject given as NameID / str / subject_id keyword / not at all, caller Subjects in every form of the schema's choice; "
+        "sign_response(3) x sign_assertion(3) x encryption mode(4) of create_authn_response completely; error responses from "
+        "exception instances of every class of the live EXCEPTION2STATUS table, unlisted built-in / saml2 classes and "
+        "application subclasses (with message, without arguments, with a context dictionary); "
+        "authn query responses for a subject with 0..3 sessions; identities with int / bool / float values; "
+        "metadata generation over roles x ui_info / organisation / contacts / entity attributes "
         "and categories / eIDAS options / endpoints / key usage / signing; seeded random mixtures; plus one injected defect "
         "(swap, drop / duplicate child, drop / corrupt / add attribute, foreign child, stray text) into a sample of the outputs; "
         "plus instant() at calendar boundaries and random time stamps and sid() samples.  thorough: the full six-fold products "
@@ -2122,8 +2488,12 @@ RULE = ("quick: complete AllowCreate lattice nameid_format(4) x configured forma
         "oracle verdict)")
 TRUSTED = ["xmlschema + the XSD documents shipped in saml2/data/schemas (the oracle)",
            "xmlsec1 stand-in (harness/standin/xmlsec1.py) for signed / encrypted variants; its ElementTree re-serialisation "
-           "drops the xmlns:xs declaration used only inside xsi:type values - put back before validation (harness/c13.py "
-           "compensate_standin)",
+           "drops the xmlns:xs / xmlns:xsd declarations used only inside xsi:type values - a declaration is put back before "
+           "validation only if the library wrote it into the text it handed to the xmlsec binary in the same call (recorded "
+           "by a hook on saml2.sigver.make_temp; harness/c13.py compensate_standin); unsigned documents are judged as written",
+           "hand-written choice groups (Extra.choice_rules) and the list of built-in XML-Schema type names (Extra.xs_builtin): "
+           "validated against the shipped schema documents by the correspondence (Coq's verdict has to equal the oracle's on "
+           "every emitted document)",
            "independent reader (xml.etree) and abstraction in harness/c13.py; base64 payloads longer than 96 characters are "
            "cut to nine groups (alphabet, alignment and padding preserved)",
            "hand-written supplements to the class tables (wildcards of Extensions / SOAP Header, Body; eIDAS isRequired "
@@ -2131,9 +2501,14 @@ TRUSTED = ["xmlschema + the XSD documents shipped in saml2/data/schemas (the ora
            "correspondence"]
 ASSUMPTIONS = [
     "level: proof for the structural part (class-table order, occurrence bounds, required / declared attributes, lexical "
-    "forms boolean, dateTime, ID/NCName, integer types, base64Binary, enumerations); exploration for what the XSD "
-    "documents add (choice groups, ID uniqueness, xsi:type content, QName / duration / anyURI facets) and for the builders "
+    "forms boolean, dateTime, ID/NCName, integer types, base64Binary, enumerations) and, for the builders whose own logic "
+    "is about it, for the choice of exactly one identifier / operation (create_name_id_mapping_request, "
+    "create_manage_name_id_request) and the type named by xsi:type (do_attributes); exploration for what else the XSD "
+    "documents add (the other choice groups, ID uniqueness, QName / duration / anyURI facets: evaluated by Coq on every "
+    "emitted document - Extra.doc_ok - and compared with the oracle, not proved of the builders) and for the builders "
     "listed under coverage.tables.correspondence_only",
+    "a plain saml.BaseID instance is not a valid argument where it would be written out (the element is abstract in the "
+    "schema); a value declared with a type has the lexical form of that type",
     "valid call arguments: boolean-valued options as the strings the library itself uses ('true'/'false'/'1'/'0') or "
     "Python booleans where the code converts them; identifiers are NCNames; element instances handed in by the caller "
     "(NameID, Subject, Scoping, Conditions, RequestedAuthnContext, Extensions content) are themselves valid; "
@@ -2346,14 +2721,23 @@ def bi_status_response(ctor, irt):
 
 
 def _error_info(info):
-    """error_status_factory's reading of its argument -> (code, message); the exception table is C06's"""
+    """error_status_factory's reading of its argument -> (code, message).  For an exception instance: the status
+    of its class as the LIVE table EXCEPTION2STATUS lists it (the class itself, not a base class), AuthnFailed for
+    a class the table does not list; args[0] is the message (a str) or a context dictionary that may carry both;
+    without arguments the message is str(exception)."""
     import saml2.s_utils as su
     from saml2 import samlp
-    from saml2.response import STATUSCODE2EXCEPTION  # noqa: F401
 
     if info["kind"] == "tuple":
         return info["code"], info.get("message")
-    return None
+    cls = exc_class(info["exc"])
+    listed = {k.__name__: v for k, v in su.EXCEPTION2STATUS.items()}
+    code = listed.get(info["exc"], samlp.STATUS_AUTHN_FAILED) if not info["exc"].startswith("sub:") else samlp.STATUS_AUTHN_FAILED
+    if info.get("ctx") is not None:
+        return info["ctx"].get("status_code_status_code_value", code), info["ctx"].get("status_message_text")
+    if info.get("message") is not None:
+        return code, info["message"]
+    return code, str(cls())
 
 
 def bi_response(case, obs):
@@ -2362,11 +2746,8 @@ def bi_response(case, obs):
     if case["b"] == "error_response":
         who_id = _entityid(case)
         info = a["info"]
-        if info["kind"] == "tuple":
-            st = "(StNested %s %s %s)" % (cq_str("urn:oasis:names:tc:SAML:2.0:status:Responder"), cq_str(info["code"]),
-                                         cq_ostr(info.get("message")))
-        else:
-            return "BOther"     # exception -> status code mapping is read from a table of the code: not restated
+        code, message = _error_info(info)
+        st = "(StNested %s %s %s)" % (cq_str("urn:oasis:names:tc:SAML:2.0:status:Responder"), cq_str(code), cq_ostr(message))
         return ("(BResponse (Build_rs_args %s %s %s %s "
                 "[] [] %s %s))" % (
                     cq_str(a.get("issuer") or who_id), st, cq_ostr(a.get("in_response_to")), cq_ostr(a.get("dest")),
@@ -2426,11 +2807,7 @@ def bi_attribute_query(case, obs):
                 setattr(n, key, kw[key])
     else:
         n = mk_name_id(nid)
-    attribute = None
-    if a.get("attribute") is not None:
-        attribute = {}
-        for k, v in a["attribute"]:
-            attribute[tuple(k) if isinstance(k, list) else k] = v
+    attribute = dec_attribute(a.get("attribute"))
     attrs = [inst_tree(x) for x in (do_attributes(attribute) if attribute else [])]
     return ("(BAttributeQuery (Build_aq_args %s %s %s %s %s "
             "%s %s %s))" % (
@@ -2490,6 +2867,101 @@ def bi_entity_descriptor(case, obs):
         one(_kids(t, MD_NS, "PDPDescriptor")))
 
 
+# ------------------------------------------------------------------------------- argument-level models (Extra.v)
+class NotModelled(Exception):
+    pass
+
+
+def cq_aval(v):
+    if v is None:
+        return "ANone"
+    if isinstance(v, str):
+        return "(AStr %s)" % cq_str(v)
+    if isinstance(v, list) and all(isinstance(x, str) for x in v):
+        return "(AList [%s])" % "; ".join(cq_str(x) for x in v)
+    raise NotModelled("attribute value %r" % (v,))
+
+
+def cq_aspec(v):
+    if isinstance(v, tuple):
+        if len(v) != 2 or not isinstance(v[1], str):
+            raise NotModelled("attribute spec %r" % (v,))
+        return "(STuple %s %s)" % (cq_aval(v[0]), cq_str(v[1]))
+    return "(SPlain %s)" % cq_aval(v)
+
+
+def cq_akey(k):
+    if isinstance(k, str):
+        return "(KStr %s)" % cq_str(k)
+    if isinstance(k, tuple) and all(isinstance(x, str) for x in k):
+        return "(KTuple [%s])" % "; ".join(cq_str(x) for x in k)
+    raise NotModelled("attribute key %r" % (k,))
+
+
+def _ob(obs):
+    return cq_observed(obs["tree"]) if obs["tree"] is not None else '(Build_observed "" "" None)'
+
+
+def xi_attribute_query(case, obs):
+    a = case["a"]
+    from saml2 import saml
+
+    kw = a.get("kw", {})
+    nid = a.get("name_id")
+    if nid is None or isinstance(nid, str):
+        if nid is None and "subject_id" not in kw:
+            raise NotModelled("raises before anything is built")
+        n = saml.NameID(text=nid if nid is not None else kw["subject_id"])
+        for key in ["sp_name_qualifier", "name_qualifier", "format"]:
+            if key in kw:
+                setattr(n, key, kw[key])
+    else:
+        n = mk_name_id(nid)
+    attribute = dec_attribute(a.get("attribute")) or {}
+    specs = "[%s]" % "; ".join("(%s, %s)" % (cq_akey(k), cq_aspec(v)) for k, v in attribute.items())
+    return ("(XBAttributeQuery (Build_aq_args %s %s %s [] %s %s %s %s) %s)" % (
+        cq_str(world.SP_ID), cq_ostr(a.get("dest")), cq_tree(inst_tree(n)), cq_b(a.get("consent")),
+        _ext_content(a.get("extensions")), cq_signing(a.get("sign"), bool(case["cfg"].get("sp_authn_requests_signed"))),
+        _ob(obs), specs))
+
+
+def xi_name_id_mapping_request(case, obs):
+    a = case["a"]
+    return ("(XBNameIDMappingRequest (Build_nim_args %s %s %s %s %s %s %s %s %s %s))" % (
+        cq_str(world.SP_ID), cq_ostr(a.get("dest")), cq_tree(inst_tree(mk_name_id_policy(a["policy"]))),
+        cq_otree(inst_tree(mk_name_id(a.get("name_id")))), cq_otree(inst_tree(mk_base_id(a.get("base_id")))),
+        cq_otree(inst_tree(mk_encrypted_id(a.get("encrypted_id")))), cq_b(a.get("consent")), _ext_content(a.get("extensions")),
+        cq_signing(a.get("sign"), bool(case["cfg"].get("sp_authn_requests_signed"))), _ob(obs)))
+
+
+def xi_manage_name_id_request(case, obs):
+    a = case["a"]
+    from saml2 import samlp
+
+    return ("(XBManageNameIDRequest (Build_mni_args %s %s %s %s %s %s %s %s %s %s %s))" % (
+        cq_str(_entityid(case)), cq_ostr(a.get("dest")), cq_otree(inst_tree(mk_name_id(a.get("name_id")))),
+        cq_otree(inst_tree(mk_encrypted_id(a.get("encrypted_id")))), cq_ostr(a.get("new_id")),
+        cq_otree(inst_tree(mk_encrypted_id(a.get("new_encrypted_id"), samlp.NewEncryptedID))), cq_b(a.get("terminate")),
+        cq_b(a.get("consent")), _ext_content(a.get("extensions")), cq_signing(a.get("sign"), _should_sign(case)), _ob(obs)))
+
+
+XMODELLED = {"attribute_query": xi_attribute_query, "name_id_mapping_request": xi_name_id_mapping_request,
+             "manage_name_id_request": xi_manage_name_id_request}
+
+
+def coq_xinfo(case, obs):
+    """arguments of a builder that Extra.v models from the call arguments themselves; when the call raised the
+    exception the unchanged code raises for these arguments, the model has to say "raises" as well"""
+    if case.get("mut") is not None or case["b"] not in XMODELLED:
+        return "XBNone"
+    if obs["tree"] is None and (obs["exc"] is None or obs["exc"] != expected_exc(case)):
+        return "XBNone"
+    try:
+        return XMODELLED[case["b"]](case, obs)
+    except NotModelled:
+        return "XBNone"
+
+
 MODELLED = {
     "entity_descriptor": bi_entity_descriptor,
     "authn_request": bi_authn_request,
@@ -2529,7 +3001,9 @@ def _build_vocab():
     walk([URLS, TEXTS, IDS, EIDAS_ATTRS, SCOPINGS, RACS, NAMEIDS, IDENTITIES, AUTHNS, STATUSES, UI_INFOS, ORGS, CONTACTS,
           ENTITY_ATTRS, TRANSIENT, PERSISTENT, EMAIL, NF_URI, AC_PASSWORD, AC_PPT, SP_ACS_PAOS, IDP_SSO_SOAP, XSI,
           env.iso(NOW), env.iso(NOW + 900), "urn:oasis:names:tc:SAML:2.0:nameid-format:entity",
-          "urn:oasis:names:tc:SAML:2.0:cm:bearer", "http://www.w3.org/2001/XMLSchema", "xs:string"])
+          "urn:oasis:names:tc:SAML:2.0:cm:bearer", "http://www.w3.org/2001/XMLSchema", "xs:string",
+          ["{%s}%s" % (XS_NS, t) for t in ("string", "integer", "boolean", "base64Binary", "anyType", "float", "dateTime")],
+          SUBJECTS, TYPED_VALUES, AQ_KEYS, "http://www.w3.org/2001/04/xmlenc#Element", "AAECAwQFBgcICQ=="])
     for mod in (samlp, saml, ds_):
         for n in dir(mod):
             v = getattr(mod, n)
